@@ -210,6 +210,11 @@ void op_sign(const Case& c, TaskCtx& t, Outcome& o) {
         CHECK_FAIL("C06.wrote_beyond_len", "byte " + std::to_string(touched) + " beyond the reported length " + std::to_string(len) + " was modified");
     }
   }
+  // ---- sign must succeed for a consistent key (volume check without model or verifier: a wrong aux bit or recorded state
+  // makes the signer's own consistency check fail)
+  if (has_chk(c, "signok") && rc != 0)
+    CHECK_FAIL(owned("C01.sign_failed", {"C10", "C12", "C16"}), std::string(p.name) + " " + family_tag(c) + " surf" + std::to_string(surf) + " mlen=" + std::to_string(msg.size()) +
+                                                                   " key=" + c.s("kpat") + ": sign returned " + std::to_string(rc) + " for a consistent key");
   // ---- C01 completeness
   if (has_chk(c, "c01")) {
     if (rc != 0)
@@ -746,7 +751,7 @@ void op_signbad(const Case& c, TaskCtx& t, Outcome& o) {
   } else if (surf == 2) {
     const NistApi& na = nist_api(param);
     bytes sm(msg.size() + na.consts[2] + 16, fill);
-    unsigned long long smlen = 0;
+    unsigned long long smlen = 0xdeadbeefcafef00dULL;
     bytes skser(st.begin(), st.begin() + 1 + 3 * p.ios);
     EdgeBuf skb(skser.size(), skser.data());
     rc = libcall(t, [&] { return na.sign(sm.data(), &smlen, msg.empty() ? &nonnull_empty2 : msg.data(), msg.size(), skb.p); });
